@@ -199,7 +199,7 @@ fn main() {
     }
     ws.push_str("]\n\n[profile.dev]\nopt-level = 1\ndebug = 1\noverflow-checks = true\ndebug-assertions = true\n\n[profile.dev.package.\"*\"]\nopt-level = 1\n");
     write_if_changed(&cases.join("Cargo.toml"), &ws);
-    write_if_changed(&cases.join(".cargo/config.toml"), &format!("[net]\noffline = true\n\n[build]\ntarget-dir = \"{}/target\"\n", root.display()));
+    write_if_changed(&cases.join(".cargo/config.toml"), &format!("[net]\noffline = true\n\n[build]\ntarget-dir = \"{}/target\"\nrustflags = [\"--cfg\", \"pilota_verif\"]\n", root.display()));
     let lock = std::fs::read_to_string(root.join("harness/Cargo.lock")).unwrap_or_default();
     if !cases.join("Cargo.lock").exists() {
         let _ = std::fs::write(cases.join("Cargo.lock"), lock);
